@@ -22,6 +22,7 @@ TABLE = {
     "c05_reader_skips_multiplier.diff": ("contracts.c04", "MemoryBuilder.handle_read", None),
     "c05_multiplier_reads_both_wires.diff": ("contracts.c05", "_create_latch_multiplier", None),
     "c05_rs_hold_row_or.diff": ("contracts.c05", "_latch_placement", None),
+    "c01_const_const_row_drops_left.diff": ("contracts.c07", "_configure_decider", "operation = <"),
     "c07_arith_wires_swapped.diff": ("contracts.c07", "_configure_arithmetic", None),
     "c07_row_not_mirrored.diff": ("contracts.c07", "_configure_decider_multi_condition", None),
     "c08_mark_occupied_row_only.diff": ("contracts.c08", "mark_occupied", None),
